@@ -3,6 +3,7 @@ package lmd
 import (
 	"fmt"
 	"sort"
+	"strings"
 	"time"
 )
 
@@ -73,7 +74,20 @@ func (raw *RawResultSet) Less(idx1, idx2 int) bool {
 			}
 
 			return valueA > valueB
-		case StringCol, StringLargeCol, StringListCol, ServiceMemberListCol, InterfaceListCol, JSONCol:
+		case StringListCol:
+			// the joined elements: a list which is missing (optional column, reference which does not exist) is an empty
+			// list, the same key Response.Less uses for the rows of merged results
+			str1 := strings.Join(raw.DataResult[idx1].GetStringList(field.Column), ListSepChar1)
+			str2 := strings.Join(raw.DataResult[idx2].GetStringList(field.Column), ListSepChar1)
+			if str1 == str2 {
+				continue
+			}
+			if field.Direction == Asc {
+				return str1 < str2
+			}
+
+			return str1 > str2
+		case StringCol, StringLargeCol, ServiceMemberListCol, InterfaceListCol, JSONCol:
 			str1 := raw.DataResult[idx1].GetString(field.Column)
 			str2 := raw.DataResult[idx2].GetString(field.Column)
 			if str1 == str2 {
